@@ -44,12 +44,14 @@ void checkRing(Case& c, R& r, const std::deque<int>& m, unsigned CS, bool tracke
   checkSeq(c, "forward-traversal", r.begin(), r.end(), fwd);
   checkSeq(c, "backward-traversal", r.rbegin(), r.rend(), bwd);
   checkSeq(c, "const-forward-traversal", cr.begin(), cr.end(), fwd);
+  c.checking("const-backward-traversal");
+  checkSeq(c, "const-backward-traversal", cr.rbegin(), cr.rend(), bwd);
   c.lifetimesOk(tracked ? (long)m.size() : -1);
   c.sawSize(m.size(), 0);
 }
 
 template <typename T, unsigned CS>
-void ringT(Case& c, bool mid, bool constReverse, unsigned nops) {
+void ringT(Case& c, bool mid, unsigned nops) {
   typedef galois::FixedSizeRing<T, CS> R;
   constexpr bool tracked = ElemName<T>::tracked;
   Rng& rng               = c.rng;
@@ -163,31 +165,20 @@ void ringT(Case& c, bool mid, bool constReverse, unsigned nops) {
       }
       checkRing(c, r, m, CS, tracked);
     }
-#if VERIF_ASAN
-    // const reverse traversal (sanitizer builds only: see spec assumptions)
-    if (constReverse && !c.bad) {
-      c.op("const-reverse-traversal");
-      c.checking("const-backward-traversal");
-      const R& cr = r;
-      // (on the unchanged tree rbegin()/rend() const flow off their end: UBSan stops the process here)
-      checkSeq(c, "const-backward-traversal", cr.rbegin(), cr.rend(), toRevVec(m));
-      c.count("const_reverse_traversals");
-    }
-#endif
     c.phase("destructor");
   }
   c.lifetimesOk(tracked ? 0 : -1);
 }
 
 template <typename T>
-void ringCS(Case& c, unsigned cs, bool mid, bool cr, unsigned nops) {
+void ringCS(Case& c, unsigned cs, bool mid, unsigned nops) {
   switch (cs) {
-  case 1: return ringT<T, 1>(c, mid, cr, nops);
-  case 2: return ringT<T, 2>(c, mid, cr, nops);
-  case 3: return ringT<T, 3>(c, mid, cr, nops);
-  case 4: return ringT<T, 4>(c, mid, cr, nops);
-  case 8: return ringT<T, 8>(c, mid, cr, nops);
-  default: return ringT<T, 64>(c, mid, cr, nops);
+  case 1: return ringT<T, 1>(c, mid, nops);
+  case 2: return ringT<T, 2>(c, mid, nops);
+  case 3: return ringT<T, 3>(c, mid, nops);
+  case 4: return ringT<T, 4>(c, mid, nops);
+  case 8: return ringT<T, 8>(c, mid, nops);
+  default: return ringT<T, 64>(c, mid, nops);
   }
 }
 
@@ -361,19 +352,17 @@ void run_FixedSizeRing(Case& c) {
   unsigned cs   = c.rng.pick({1u, 2u, 3u, 3u, 4u, 4u, 8u, 64u});
   bool tracked  = c.rng.below(3) != 0;
   bool mid      = c.rng.below(2) == 0;
-  bool cr       = VERIF_ASAN && c.rng.below(192) == 0;
   unsigned nops = c.pickOps();
   std::string cfg =
-      "cs" + std::to_string(cs) + (tracked ? "|tracked" : "|pod") + (mid ? "|mid" : "|ends") + (cr ? "|constrev" : "");
+      "cs" + std::to_string(cs) + (tracked ? "|tracked" : "|pod") + (mid ? "|mid" : "|ends");
   if (!c.begin("FixedSizeRing", cfg,
           J().kv("chunk", cs).kv("elem", tracked ? "tracked" : "pod").kv("emplace_in_middle", mid)
-              .kv("const_reverse_traversal_at_end", cr).kv("nops", nops),
-               cr ? "const-reverse" : ""))
+              .kv("nops", nops)))
     return;
   if (tracked)
-    ringCS<Tracked>(c, cs, mid, cr, nops);
+    ringCS<Tracked>(c, cs, mid, nops);
   else
-    ringCS<Pod>(c, cs, mid, cr, nops);
+    ringCS<Pod>(c, cs, mid, nops);
 }
 
 void run_FixedSizeBag(Case& c) { runBag<false>(c, "FixedSizeBag"); }
